@@ -15,7 +15,7 @@ from fsic.core import VectorContainer
 from fsic.extensions import PandasIndexFeaturesMixin
 
 from ..core.observe import observe, diff_obs, canon
-from ..core.runner import Acc, guard, CaseTimeout
+from ..core.runner import Acc, guard, CaseTimeout, robust
 from .c11 import shared
 
 ID = 'C12'
@@ -94,6 +94,7 @@ FILLS = [
     ('keyword', {'K': -1, 'F': 8.5, 'Y': -2.0, 'status': 'X'}),
     ('both', {'fill_value': 7, 'S': 'q', 'X': 0.25, 'iterations': 99}),
     ('unknown', {'fill_value': 0, 'Nope': 1}),
+    ('falsy-keywords', {'fill_value': 7, 'K': 0, 'F': 0.0, 'S': '', 'Q': False, 'X': 0.0, 'Y': 0, 'status': '', 'iterations': 0}),
 ]
 
 
@@ -125,6 +126,7 @@ def cell_equal(a, b):
     return a == b
 
 
+@robust()
 def run_case(case):
     objkind, (tk_old, tk_new), old_idx, new_idx, fill_name, strict = case['obj'], case['types'], case['old'], case['new'], case['fill'], case['strict']
     kwargs = dict(dict(FILLS)[fill_name])
@@ -211,6 +213,7 @@ def run_case(case):
     return out
 
 
+@robust()
 def run_pandas_case(case):
     """PandasIndexFeaturesMixin.reindex with default arguments == base reindex (duplicate-free new spans, float variables)."""
     old_idx, new_idx, (tk_old, tk_new) = case['old'], case['new'], case['types']
@@ -251,7 +254,7 @@ def blocks(tier, seed):
                     # the other fill configurations run on three type pairs, the other solve states with the default fill
                     if objkind in ('model-unsolved', 'model-solved') and fill_name != 'none':
                         continue
-                    if fill_name not in ('none', 'both') and ti not in (0, 4, 5):
+                    if fill_name not in ('none', 'both', 'falsy-keywords') and ti not in (0, 4, 5):
                         continue
                 out.append({'types': list(types), 'obj': objkind, 'fill': fill_name})
     for types in (('list_int', 'list_int'), ('pd_int', 'pd_int'), ('pd_year', 'pd_year')):
